@@ -25,12 +25,21 @@ def dec(x):
     return {"q": le(q), "r": le(r)}
 
 
-def session(TR, pecc, ms, privs, msg, root, rng, mutate=None):
+def session(TR, pecc, ms, privs, msg, root, rng, mutate=None, nonces="random"):
     """one signing session through the library; returns the case for TLC"""
     n = len(privs)
     byx = {p.point.xonly(): p for p in privs}
     xs = sorted(byx)
     secrets_nonce = [(rng.randrange(1, N256), rng.randrange(1, N256)) for _ in range(n)]
+    if nonces == "equal-first-two":
+        secrets_nonce[1] = (secrets_nonce[0][0], rng.randrange(1, N256))        # two participants happen to pick the same first nonce
+    elif nonces == "equal-pairs":
+        secrets_nonce[1] = secrets_nonce[0]
+    elif nonces == "boundary":
+        # first nonces n-1 and 1 cancel (their sum is the point at infinity) while the second nonces do not: the aggregate
+        # nonce is still a proper point.  (Nonce sets whose aggregate is itself infinity admit no BIP340 signature at all.)
+        edge = [(N256 - 1, 2), (1, 3), (2, N256 - 1), (N256 - 2, 1), (1, 1)]
+        secrets_nonce = [edge[j % len(edge)] for j in range(n)]
     pairs = [(k1 * pecc.G, k2 * pecc.G) for k1, k2 in secrets_nonce]
     sums = ms.nonce_sums(pairs)
     r = ms.compute_r(sums, msg)
@@ -64,7 +73,8 @@ def session(TR, pecc, ms, privs, msg, root, rng, mutate=None):
         qe = N256 - qv if Q.parity else qv
     else:
         qsum, qe = 0, pe
-    bin_ = sums[0].sec() + sums[1].sec() + P.xonly() + msg
+    sec1, sec2 = [bytes(33) if s_.x is None else s_.sec() for s_ in sums]      # the point at infinity is hashed as 33 zero bytes
+    bin_ = sec1 + sec2 + P.xonly() + msg
     b = int.from_bytes(hash_prim("tag:MuSig/noncecoef", bin_), "big")
     hr.append(th_row("MuSig/noncecoef", bin_))
     rsum = sum(k1 + b * k2 for k1, k2 in secrets_nonce)
@@ -76,7 +86,7 @@ def session(TR, pecc, ms, privs, msg, root, rng, mutate=None):
     return {"kind": "musig", "honest": honest, "keys": [{"x": B(x), "d": le(byx[x].secret), "odd": bool(byx[x].point.parity)} for x in xs],
             "nonces": [[le(k1), le(k2)] for k1, k2 in secrets_nonce], "dcoef": [dec(c) for c in [int.from_bytes(hash_prim("tag:KeyAgg coefficient", L + x), "big") for x in xs]],
             "dp": dec(psum), "P_odd": bool(P.parity), "Px": B(P.xonly()), "root": B(root), "dq": dec(qsum), "Q_odd": bool(Q.parity), "Qx": B(Q.xonly()),
-            "R1sec": B(sums[0].sec()), "R2sec": B(sums[1].sec()), "msg": B(msg), "dr": dec(rsum), "R_odd": bool(r.parity), "Rx": B(r.xonly()), "de": dec(e),
+            "R1sec": B(sec1), "R2sec": B(sec2), "msg": B(msg), "dr": dec(rsum), "R_odd": bool(r.parity), "Rx": B(r.xonly()), "de": dec(e),
             "ds": dec(re + (e % N256) * qe), "hr": hr, "res": res[0], "sig": B(res[1].serialize()) if res[0] == "ok" else [], "mut": mutate or "none", "n": n}
 
 
@@ -128,6 +138,12 @@ def run(ctx):
             c["id"] = "s%d.%d" % (si, j)
             cases.append(c)
             ctx.nontriv(("musig", n, bool(root), c["P_odd"], c["R_odd"], c["Q_odd"], c["mut"]))
+        # nonce pairs of the quantifier's corners: equal nonces of two participants, nonces 1 and n - 1
+        for j, (root, nm) in enumerate([(b"", "equal-first-two"), (rootA, "boundary"), (rootA, "equal-pairs"), (b"", "boundary")][: (2 if q and si else 4)]):
+            c = session(TR, pecc, ms, privs, rb(32), root, rng, None, nm)
+            c["id"] = "sn%d.%d" % (si, j)
+            cases.append(c)
+            ctx.nontriv(("musig-nonces", n, bool(root), nm))
     # k-of-n trees
     combos = [(1, 2), (2, 2), (2, 3), (3, 5)] if q else [(k, n) for n in range(2, 6) for k in range(1, n + 1)]
     for (k, n) in combos:
